@@ -176,6 +176,10 @@ def serBase (bp : Option Product) (d : Ini) : Except Err Ini :=
     let d ← addSection d sBase
     sets d sBase [(kName, p.name), (kVersion, p.version), (kShort, p.short)]
 
+/-- `if self.release.is_layered: self.base_product.serialize(parser)` -/
+def serBaseIf (layered : Bool) (bp : Option Product) (d : Ini) : Except Err Ini :=
+  if layered then serBase bp d else .ok d
+
 /-- `",".join(sorted(platforms | set([arch])))` -/
 def platformsStr (t : Tree) : Str := Str.joinWith ',' (Str.sortDedup (t.platforms ++ [t.arch]))
 
@@ -295,6 +299,11 @@ def generalPath (arch : Str) (paths : List (Str × Str)) (field srcField : Str) 
   | some p => some p
   | none => if arch == "src".toList then paths.lookup srcField else none
 
+/-- `if value is not None: parser.set(section, key, value)` -/
+def setOpt (d : Ini) (s k : Str) : Option Str → Except Err Ini
+  | some p => Ini.set d s k p
+  | none => .ok d
+
 /-- `General.serialize` -/
 def serGeneral (t : TreeInfo) (mainVariant : Option Str) (d : Ini) : Except Err Ini := do
   let d ← addSection d sGeneral
@@ -312,19 +321,15 @@ def serGeneral (t : TreeInfo) (mainVariant : Option Str) (d : Ini) : Except Err 
   let key ← chosenKey t.variants mainVariant
   let d ← Ini.set d sGeneral tVariant key
   let v ← getItem (key.length + 1) t.variants key
-  let d ← match generalPath t.tree.arch v.paths "packages".toList "source_packages".toList with
-    | some p => Ini.set d sGeneral "packagedir".toList p
-    | none => .ok d
-  match generalPath t.tree.arch v.paths "repository".toList "source_repository".toList with
-    | some p => Ini.set d sGeneral "repository".toList p
-    | none => .ok d
+  let d ← setOpt d sGeneral "packagedir".toList (generalPath t.tree.arch v.paths "packages".toList "source_packages".toList)
+  setOpt d sGeneral "repository".toList (generalPath t.tree.arch v.paths "repository".toList "source_repository".toList)
 
 /-- `TreeInfo.serialize(parser, main_variant)` into the given parser -/
 def serializeInto (t : TreeInfo) (mainVariant : Option Str) (d : Ini) : Except Err Ini := do
   validateClass "treeinfo.TreeInfo" []
   let d ← serHeader t.headerVersion d
   let d ← serRelease t.release t.isLayered d
-  let d ← if t.isLayered then serBase t.baseProduct d else .ok d
+  let d ← serBaseIf t.isLayered t.baseProduct d
   let d ← serTree t.tree d
   let d ← serTops t.variants d
   let d ← serChecksums t.checksums d
